@@ -254,6 +254,10 @@ fn entry_mode(rng: &mut Rng) -> EntryMode {
 
 /// existing key of the element with some probability, else a pool key
 fn attr_key(m: &Model, e: Lid, rng: &mut Rng) -> Nm {
+    if rng.pct(6) {
+        // the built-in names get special treatment in places
+        return Nm::new(if rng.pct(70) { "id" } else { "space" }, "http://www.w3.org/XML/1998/namespace");
+    }
     let attrs = &m.n(e).attrs;
     if !attrs.is_empty() && rng.pct(55) {
         if let crate::model::Kind::Attr(n, _) = &m.n(*rng.pick(attrs)).kind {
@@ -425,7 +429,9 @@ fn try_gen_op(m: &Model, rng: &mut Rng, prof: &Profile, home: &[Lid]) -> Option<
             let e = p.kind(rng, K::Elem)?;
             Some(if rng.pct(60) {
                 let name = attr_key(m, e, rng);
-                let value = rng.pick(&ATTR_VALUES).to_string();
+                // (leading / trailing / doubled spaces: an xml:id with such a value does not survive
+                // a reparse, so C10's profile leaves them out)
+                let value = if rng.pct(10) && !prof.representable_ns_only { rng.pick_str(&[" v", "v ", "a  b", " a  b "]).to_string() } else { rng.pick(&ATTR_VALUES).to_string() };
                 match rng.below(8) {
                     0 | 1 => Op::AttrInsert { e, name, value },
                     2 => Op::AttrRemove { e, name },
@@ -454,7 +460,13 @@ fn try_gen_op(m: &Model, rng: &mut Rng, prof: &Profile, home: &[Lid]) -> Option<
                             Op::SetNamespace { e, prefix, uri }
                         }
                     }
-                    5 => Op::RemoveNamespace { e, prefix },
+                    5 => {
+                        if rng.pct(50) {
+                            Op::RemoveNamespace { e, prefix }
+                        } else {
+                            Op::AppendNamespace { p: e, prefix, uri }
+                        }
+                    }
                     _ => Op::NsEntry { e, prefix, mode: entry_mode(rng), uri },
                 }
             })
